@@ -283,6 +283,14 @@ def main():
                    wall_s=round(time.time() - t0, 1),
                    survivors=[{k: r[k] for k in ("id", "file", "line", "func", "op", "old", "new")} for r in results if r["verdict"] == "survived"],
                    broken_list=[{k: r[k] for k in ("id", "file", "line", "func", "op", "new", "detail")} for r in results if r["verdict"] == "broken"])
+    if a.survivors and not a.only and not a.limit:
+        # a re-run of the earlier survivors (after checks were strengthened): the mutants killed before stay killed; totals are
+        # those of the whole group
+        newly = summary["killed"]
+        summary["total"] = prev["total"]
+        summary["killed"] = prev["killed"] + newly
+        summary["killed_by"] = {c: prev.get("killed_by", {}).get(c, 0) + summary["killed_by"].get(c, 0) for c in GROUPS[a.group]["checks"]}
+        summary["rerun_of_survivors"] = dict(rerun=len(results), newly_killed=newly, earlier_wall_s=prev.get("wall_s"))
     json.dump(summary, open(os.path.join(VERIF, "mutation", "%s.json" % a.group), "w"), indent=1)
     print("group %s: %d mutants, %d killed, %d broken, %d survived in %.0fs" % (
         a.group, summary["total"], summary["killed"], summary["broken"], summary["survived"], summary["wall_s"]))
